@@ -99,11 +99,24 @@ func threadCPU(tid int64) float64 {
 	return (ut + st) / 100.0
 }
 
+// coldVariant returns N for the flavour variants "coldconc" (0), "coldconc2" (1), ... and -1 otherwise.
+func coldVariant(cfg *Config) int {
+	v := cfg.Variant()
+	if !strings.HasPrefix(v, "coldconc") {
+		return -1
+	}
+	n, _ := strconv.Atoi(v[len("coldconc"):])
+	if n < 1 {
+		n = 1
+	}
+	return n - 1
+}
+
 // RunChild executes the property's families in this process and writes the result file.
 func RunChild(p *Prop, cfg *Config) int {
 	start := time.Now()
 	os.MkdirAll(cfg.WorkDir, 0o755)
-	fams := p.Families(cfg)
+	fams := withEnvSweep(cfg, p.Families(cfg))
 	res := &Result{Prop: p.ID, Flavour: cfg.Flavour, Tier: cfg.Tier, Seed: cfg.Seed,
 		Buckets: map[string]int64{}, Extra: map[string]int64{}, Info: map[string]string{}, GoVersion: runtime.Version()}
 	resPath := filepath.Join(cfg.WorkDir, cfg.Flavour+".result.json")
@@ -218,7 +231,71 @@ func RunChild(p *Prop, cfg *Config) int {
 		wg.Wait()
 	}
 
-	if cfg.Only != nil {
+	// runJobs: an explicit job list; all workers leave a start barrier together, so that their first calls into
+	// the library are as simultaneous as the harness can make them.
+	runJobs := func(jobs []job) {
+		var next, ready atomic.Int64
+		var wg sync.WaitGroup
+		for wi := 0; wi < nw; wi++ {
+			wg.Add(1)
+			go func(w *W) {
+				defer wg.Done()
+				runtime.LockOSThread()
+				defer runtime.UnlockOSThread()
+				w.tid.Store(int64(syscall.Gettid()))
+				defer w.tid.Store(0)
+				ready.Add(1)
+				for ready.Load() < int64(nw) {
+				}
+				for {
+					j := int(next.Add(1)) - 1
+					if j >= len(jobs) {
+						return
+					}
+					if prog != nil {
+						prog.set(w.id, jobs[j].fi, jobs[j].idx, true)
+					}
+					w.runCase(&fams[jobs[j].fi], jobs[j].idx)
+					if prog != nil {
+						prog.set(w.id, jobs[j].fi, jobs[j].idx, false)
+					}
+				}
+			}(workers[wi])
+		}
+		wg.Wait()
+	}
+
+	if cold := coldVariant(cfg); cold >= 0 {
+		// "#coldconc[N]": a fresh process whose FIRST calls into the library come from all workers at once (no
+		// serial family runs before them): a few cases of every family, interleaved. A replay repeats the whole
+		// schedule (one case alone cannot reproduce a first-use interleaving).
+		var par []int
+		for fi := range fams {
+			if !fams[fi].Serial && fams[fi].N > 0 {
+				par = append(par, fi)
+			}
+		}
+		var jobs []job
+		if len(par) > 0 {
+			// every worker's first case comes from the SAME family (another one in each variant), so that all of
+			// them enter the same functions for the first time together
+			first := par[cold%len(par)]
+			for i := 0; i < nw; i++ {
+				jobs = append(jobs, job{first, ((cold/len(par))*nw + i) % fams[first].N})
+			}
+			rounds := 3*nw/len(par) + 2
+			for r := 0; r < rounds; r++ {
+				for k := range par {
+					fi := par[(k+cold)%len(par)]
+					if idx := r + cold*rounds; idx < fams[fi].N {
+						jobs = append(jobs, job{fi, idx})
+					}
+				}
+			}
+		}
+		runJobs(jobs)
+		serialW.buckets["cold-concurrent-first-use/cases"] += int64(len(jobs))
+	} else if cfg.Only != nil {
 		found := false
 		for fi := range fams {
 			if fams[fi].Name == cfg.Only.Family && cfg.Only.Idx < fams[fi].N {
@@ -265,6 +342,16 @@ func RunChild(p *Prop, cfg *Config) int {
 
 	// merge
 	all := map[uint64]struct{}{}
+	if sketchUsed.Load() {
+		for _, w := range workers {
+			w.spillDistinct()
+		}
+		res.Distinct += sketchCount()
+		if res.Info == nil {
+			res.Info = map[string]string{}
+		}
+		res.Info["distinct_counting"] = "lower bound: set bits of a 2^30-bit bitmap indexed by the top 30 bits of each case hash (exact per-worker sets spilled at 2^18 entries)"
+	}
 	sig := map[string]int{}
 	for _, w := range workers {
 		res.Evaluations += w.evals
